@@ -20,7 +20,6 @@ package bcl
 //
 //@ group C01,C02,C03,C04,C10,C06
 //@ func (*vm).run
-//@   use cnt_mono, cnt_strict
 //@   requires prog_set: vm.prog != nil && vm.prog.linePos != nil
 //@   requires initial: 0 <= vm.tos && vm.tos <= 1024 && 0 <= vm.blockTos && vm.blockTos <= 16 && vm.pc >= 0
 //@   requires blocks_have_maps: forall i int :: 0 <= i && i < vm.blockTos ==> vm.blockStack[i].Fields != nil
@@ -74,12 +73,16 @@ package bcl
 //@   loop 1 step [C03] endblock_toplevel_appends_result: instr == opENDBLOCK && prev(vm.blockTos) == 1 ==> vm.blockTos == 0 && len(vm.result) == prev(len(vm.result)) + 1 && vm.result[len(vm.result)-1] == prev(vm.blockStack[0]) && (forall i int :: 0 <= i && i < prev(len(vm.result)) ==> vm.result[i] == prev(vm.result[i]))
 // bind (C04)
 //@   loop 1 step [C04] bind_selects: instr == opBIND ==> bindSelected(vm, blocks, selector, target)
-//@   loop 1 step [C04] bind_filters_by_type_in_order: instr == opBIND ==> len(blocks) == cntType(elems(vm.result), len(vm.result), blockType) && len(blocks) >= 1 && (forall i int :: 0 <= i && i < len(vm.result) && vm.result[i].Type == blockType ==> blocks[cntType(elems(vm.result), i, blockType)] == vm.result[i])
+//@   loop 1 step [C04] bind_counts_blocks_of_type: instr == opBIND ==> len(blocks) == cntType(elems(vm.result), len(vm.result), blockType) && len(blocks) >= 1 && (forall j int :: 0 <= j && j < len(blocks) ==> blocks[j].Type == blockType)
+//@   loop 1 step [C04] bind_first_is_first_of_type: instr == opBIND ==> (exists i int :: 0 <= i && i < len(vm.result) && vm.result[i] == blocks[0] && (forall k int :: 0 <= k && k < i ==> vm.result[k].Type != blockType))
+//@   loop 1 step [C04] bind_last_is_last_of_type: instr == opBIND ==> (exists m int :: 0 <= m && m < len(vm.result) && vm.result[m] == blocks[len(blocks)-1] && (forall k int :: m < k && k < len(vm.result) ==> vm.result[k].Type != blockType))
 //@   loop 1 step [C04] bind_operands: instr == opBIND ==> blockType == as_str(prev(vm.prog.constants[int(operand1(vm))])) && int(selector) == int(bindOpt) % 16 && int(target) == int(bindOpt) / 16 * 16
 //
 //@   loop 2 invariant index: 0 - 1 <= rangeindex && rangeindex < len(vm.result)
 //@   loop 2 invariant filter_count: len(blocks) == cntType(elems(vm.result), rangeindex + 1, blockType)
-//@   loop 2 invariant filter_order: forall i int :: 0 <= i && i <= rangeindex && vm.result[i].Type == blockType ==> blocks[cntType(elems(vm.result), i, blockType)] == vm.result[i]
+//@   loop 2 invariant filter_members: forall j int :: 0 <= j && j < len(blocks) ==> blocks[j].Type == blockType
+//@   loop 2 invariant filter_first: len(blocks) > 0 ==> (exists i int :: 0 <= i && i <= rangeindex && vm.result[i] == blocks[0] && (forall k int :: 0 <= k && k < i ==> vm.result[k].Type != blockType))
+//@   loop 2 invariant filter_last: len(blocks) > 0 ==> (exists m int :: 0 <= m && m <= rangeindex && vm.result[m] == blocks[len(blocks)-1] && vm.result[m].Type == blockType && (forall k int :: m < k && k <= rangeindex ==> vm.result[k].Type != blockType))
 //@   loop 2 invariant results_kept: forall i int :: 0 <= i && i < len(vm.result) ==> vm.result[i] == prev(vm.result[i])
 //@   loop 2 invariant blocks_fresh: isnew(blocks) && arr(blocks) != arr(vm.result)
 //@   loop 2 invariant outer_state_kept: vm.tos == prev(vm.tos) && vm.blockTos == prev(vm.blockTos) && vm.blockStack == prev(vm.blockStack) && vm.result == prev(vm.result) && vm.prog == old(vm.prog) && !overflow && instr == opBIND && vm.prog.linePos != nil
